@@ -14,6 +14,9 @@
 (* Go's select chooses at random among ready cases: both are enabled.      *)
 (* Dev "want_bare_recv": the shipped Request waits with a bare receive.    *)
 (* Dev "kill_waits_done": Kill returns when Done is closed (too early).    *)
+(* Dev "fetch_ignores_cancel": a web-seed fetch started by the loop does   *)
+(* not watch the context the loop cancels when it exits, and so ends only  *)
+(* when the server answers (or the HTTP client times out).                 *)
 (* Dev "send_ignores_done": a "send" (e.g. the exit path of a peer, which  *)
 (* flushes its last events to the torrent) checks Done once before it      *)
 (* starts instead of in the select: with the queue full when the loop      *)
@@ -27,15 +30,16 @@ VARIABLES loop,      \* "run", "closing" (Done closed), "freed" (store released)
           q,         \* queue of events: caller ids, or "goaway"
           handling,  \* caller whose event the loop is answering ("-" if none)
           pc, res,   \* per caller
-          listed, memory
+          listed, memory,
+          fetch      \* the torrent's helper goroutine (a web-seed fetch): "idle", "running", "ended"
 
-vars == <<loop, q, handling, pc, res, listed, memory>>
+vars == <<loop, q, handling, pc, res, listed, memory, fetch>>
 DoneClosed == loop # "run"
 Deleted == loop = "exited"
 
 Init == /\ loop = "run" /\ q = <<>> /\ handling = "-"
         /\ pc = [c \in Callers |-> "start"] /\ res = [c \in Callers |-> "-"]
-        /\ listed = TRUE /\ memory = TRUE
+        /\ listed = TRUE /\ memory = TRUE /\ fetch = "idle"
 
 Return(c, r) == pc' = [pc EXCEPT ![c] = "returned"] /\ res' = [res EXCEPT ![c] = r]
 
@@ -46,10 +50,10 @@ Send(c) ==
         /\ q' = Append(q, IF Shape[c] = "kill" THEN "goaway" ELSE c)
         /\ IF Shape[c] = "send" THEN Return(c, "ok")
            ELSE pc' = [pc EXCEPT ![c] = "sent"] /\ UNCHANGED res
-        /\ UNCHANGED <<loop, handling, listed, memory>>
+        /\ UNCHANGED <<loop, handling, listed, memory, fetch>>
      \/ /\ DoneClosed /\ ~("send_ignores_done" \in Dev /\ Shape[c] = "send" /\ Len(q) = QCap)
         /\ Return(c, "dead")
-        /\ UNCHANGED <<loop, q, handling, listed, memory>>
+        /\ UNCHANGED <<loop, q, handling, listed, memory, fetch>>
 
 \* the loop takes the next event
 Take ==
@@ -58,37 +62,52 @@ Take ==
   /\ IF Head(q) = "goaway" THEN loop' = "closing" /\ UNCHANGED handling
      ELSE IF Shape[Head(q)] = "send" THEN UNCHANGED <<loop, handling>>
      ELSE handling' = Head(q) /\ UNCHANGED loop
-  /\ UNCHANGED <<pc, res, listed, memory>>
+  /\ UNCHANGED <<pc, res, listed, memory, fetch>>
 
 \* rendezvous on the reply channel: the loop sends, the waiting caller receives
 Reply ==
   /\ handling # "-" /\ pc[handling] = "sent"
   /\ Return(handling, "value")
   /\ handling' = "-"
-  /\ UNCHANGED <<loop, q, listed, memory>>
+  /\ UNCHANGED <<loop, q, listed, memory, fetch>>
 
 \* the caller gives up waiting for the reply when Done is closed
 GiveUp(c) ==
   /\ pc[c] = "sent" /\ Shape[c] \in {"await", "want"} /\ DoneClosed
   /\ ~(Shape[c] = "want" /\ "want_bare_recv" \in Dev)
   /\ Return(c, "dead")
-  /\ UNCHANGED <<loop, q, handling, listed, memory>>
+  /\ UNCHANGED <<loop, q, handling, listed, memory, fetch>>
 
 \* exit path of run() and of the wrapper, step by step
 Exit ==
   /\ handling = "-"
   /\ \/ loop = "closing" /\ loop' = "freed" /\ memory' = FALSE /\ UNCHANGED listed
      \/ loop = "freed" /\ loop' = "exited" /\ listed' = FALSE /\ UNCHANGED memory
-  /\ UNCHANGED <<q, handling, pc, res>>
+  /\ UNCHANGED <<q, handling, pc, res, fetch>>
 
 \* Kill waits for Deleted
 KillDone(c) ==
   /\ pc[c] = "sent" /\ Shape[c] = "kill" /\ (IF "kill_waits_done" \in Dev THEN DoneClosed ELSE Deleted)
   /\ Return(c, "ok")
-  /\ UNCHANGED <<loop, q, handling, listed, memory>>
+  /\ UNCHANGED <<loop, q, handling, listed, memory, fetch>>
 
-Next == Take \/ Reply \/ Exit \/ \E c \in Callers : Send(c) \/ GiveUp(c) \/ KillDone(c)
-Fairness == WF_vars(Take) /\ WF_vars(Reply) /\ WF_vars(Exit) /\
+\* the loop starts a fetch from a web seed in a goroutine of its own (maybeWebseed)
+StartFetch ==
+  /\ loop = "run" /\ handling = "-" /\ fetch = "idle"
+  /\ fetch' = "running"
+  /\ UNCHANGED <<loop, q, handling, pc, res, listed, memory>>
+\* the server answers, sooner or later or never (no fairness) ...
+FetchAnswered ==
+  /\ fetch = "running" /\ fetch' = "ended"
+  /\ UNCHANGED <<loop, q, handling, pc, res, listed, memory>>
+\* ... or the fetch is abandoned because the loop's context is cancelled when it exits
+FetchCancelled ==
+  /\ fetch = "running" /\ DoneClosed /\ "fetch_ignores_cancel" \notin Dev
+  /\ fetch' = "ended"
+  /\ UNCHANGED <<loop, q, handling, pc, res, listed, memory>>
+
+Next == Take \/ Reply \/ Exit \/ StartFetch \/ FetchAnswered \/ FetchCancelled \/ \E c \in Callers : Send(c) \/ GiveUp(c) \/ KillDone(c)
+Fairness == WF_vars(Take) /\ WF_vars(Reply) /\ WF_vars(Exit) /\ WF_vars(FetchCancelled) /\
             \A c \in Callers : WF_vars(Send(c)) /\ WF_vars(GiveUp(c)) /\ WF_vars(KillDone(c))
 Spec == Init /\ [][Next]_vars /\ Fairness
 
@@ -100,6 +119,8 @@ AfterDeleted == Deleted => ~listed /\ ~memory
 \* a Kill that has returned successfully leaves nothing behind, however long the store takes to
 \* release (it waits for a piece that is being hashed)
 KillIsComplete == \A c \in Callers : (Shape[c] = "kill" /\ res[c] = "ok") => ~listed /\ ~memory
+\* the torrent's helper goroutines end with it: a fetch does not outlive the deletion for long, whatever the server does
+HelpersEnd == [](Deleted => <>(fetch # "running"))
 \* the loop never waits for a caller that has gone away
 LoopNeverStuck == [](handling # "-" => <>(handling = "-"))
 =============================================================================
